@@ -174,6 +174,35 @@ Section SERVER.
     | q :: qs' => let '(st', o) := serve_cors cors limit tab st q in o :: serve_all_cors cors limit tab st' qs'
     end.
 
+  (* THE ROUTER CLEANS, THE GATES DO NOT.  router.ServeHTTP looks the route up under
+     path.Clean(r.URL.Path) ([clean]: the router's canonical spelling of a path — trailing
+     slash, empty, "." and ".." segments removed) and hands the route's chain the request AS
+     RECEIVED: the signature verifier signs over r.URL.Path, the spelling the client sent.
+     [serve_recv] = [serve_cors] with that lookup; for [clean] = identity it is [serve_cors]. *)
+  Definition routed (clean : Z -> Z) (q : sreq) : route := (r_method (q_cs q), clean (r_path (q_cs q))).
+
+  Definition serve_recv (cors : bool) (clean : Z -> Z) (limit : Z) (tab : list bound) (st : jstate) (q : sreq)
+    : jstate * sout :=
+    if cors && (r_method (q_cs q) =? m_options) then (st, mkSout (mkHout false 204 [] [] false) None 0)
+    else
+      match find_bound (routed clean q) tab with
+      | Some b => serve_bound limit b st q
+      | None =>
+        (st, mkSout (mkHout false (if cors then 404
+                                   else if path_bound (snd (routed clean q)) tab then 405 else 404) [] [] false) None 0)
+      end.
+
+  Fixpoint serve_all_recv (cors : bool) (clean : Z -> Z) (limit : Z) (tab : list bound) (st : jstate) (qs : list sreq)
+    : list sout :=
+    match qs with
+    | [] => []
+    | q :: qs' => let '(st', o) := serve_recv cors clean limit tab st q in o :: serve_all_recv cors clean limit tab st' qs'
+    end.
+
+  Definition run_server_recv (cors : bool) (clean : Z -> Z) (limit : Z) (gs : list group) (qs : list sreq)
+    : bool * list sout :=
+    let '(tab, ok) := bind gs [] in (ok, serve_all_recv cors clean limit tab [] qs).
+
   Definition run_server_cors (cors : bool) (limit : Z) (gs : list group) (qs : list sreq) : bool * list sout :=
     let '(tab, ok) := bind gs [] in (ok, serve_all_cors cors limit tab [] qs).
 End SERVER.
